@@ -45,6 +45,7 @@ func C05(r *core.Run) {
 	refNameKeepsLast(r)
 	detachedCommentsStayDetached(r)
 	commentLinesKeepEmpty(r)
+	referenceNamesResolve(r)
 	presentNeverSkipped(r, printRel+"/optionreflect", "walkOptionMessage", "every populated option field is printed")
 	nestedSkipsMapEntries(r, printRel) // a map entry printed as a nested message duplicates the map field
 	// option string values are rendered by an adaptation of prototext's escaper, which the .proto parser reads back
@@ -359,38 +360,45 @@ func refNameKeepsLast(r *core.Run) {
 		return
 	}
 	info := pk.TypesInfo
-	joined := map[string]bool{}
-	ast.Inspect(fd.Body, func(n ast.Node) bool {
-		if c, ok := n.(*ast.CallExpr); ok && core.CalleeName(info, c) == "strings.Join" && len(c.Args) == 2 {
-			joined[core.ExprStr(c.Args[0])] = true
-		}
-		return true
-	})
 	n := 0
-	ast.Inspect(fd.Body, func(nd ast.Node) bool {
-		as, ok := nd.(*ast.AssignStmt)
-		if !ok || len(as.Lhs) != 1 || len(as.Rhs) != 1 {
+	// the function itself and the same-package helpers it calls (the shortening may live in `shortRefName`)
+	for _, fd := range core.TreeDecls(pk, fd, 2) {
+		if fd.Body == nil {
+			continue
+		}
+		fd := fd
+		joined := map[string]bool{}
+		ast.Inspect(fd.Body, func(n ast.Node) bool {
+			if c, ok := n.(*ast.CallExpr); ok && core.CalleeName(info, c) == "strings.Join" && len(c.Args) == 2 {
+				joined[core.ExprStr(c.Args[0])] = true
+			}
 			return true
-		}
-		name := core.ExprStr(as.Lhs[0])
-		se, ok := core.Unparen(as.Rhs[0]).(*ast.SliceExpr)
-		if !ok || !joined[name] || core.ExprStr(se.X) != name || se.Low == nil || se.High != nil {
+		})
+		ast.Inspect(fd.Body, func(nd ast.Node) bool {
+			as, ok := nd.(*ast.AssignStmt)
+			if !ok || len(as.Lhs) != 1 || len(as.Rhs) != 1 {
+				return true
+			}
+			name := core.ExprStr(as.Lhs[0])
+			se, ok := core.Unparen(as.Rhs[0]).(*ast.SliceExpr)
+			if !ok || !joined[name] || core.ExprStr(se.X) != name || se.Low == nil || se.High != nil {
+				return true
+			}
+			k, isC := core.ConstInt(info, se.Low)
+			if !isC {
+				return true
+			}
+			n++
+			o := r.Add("R-FLOW/refname", fmt.Sprintf("%s.contextRefName | %s = %s", printRel, name, core.ExprStr(as.Rhs[0])), as.Pos(), "shortening of the printed type name")
+			f := rules.FactsAt(info, fd.Body, as)
+			if f.MinLen[name] >= int(k)+1 {
+				o.Auto("len(%s) >= %d here: the type's own name is never dropped", name, f.MinLen[name])
+			} else {
+				o.Fail("only len(%s) >= %d is known here: the whole path can be dropped, and a field whose type is its own or an enclosing message is printed without a type name", name, f.MinLen[name])
+			}
 			return true
-		}
-		k, isC := core.ConstInt(info, se.Low)
-		if !isC {
-			return true
-		}
-		n++
-		o := r.Add("R-FLOW/refname", fmt.Sprintf("%s.contextRefName | %s = %s", printRel, name, core.ExprStr(as.Rhs[0])), as.Pos(), "shortening of the printed type name")
-		f := rules.FactsAt(info, fd.Body, as)
-		if f.MinLen[name] >= int(k)+1 {
-			o.Auto("len(%s) >= %d here: the type's own name is never dropped", name, f.MinLen[name])
-		} else {
-			o.Fail("only len(%s) >= %d is known here: the whole path can be dropped, and a field whose type is its own or an enclosing message is printed without a type name", name, f.MinLen[name])
-		}
-		return true
-	})
+		})
+	}
 	r.Floor("R-FLOW/refname", 1, "re-slices of the joined path in contextRefName")
 	_ = types.Universe
 	_ = n
